@@ -49,7 +49,7 @@ class Prop(BaseProp):
     RULE = ("modules whose doccomments (canonical form, 0-40 lines drawn from 10 hostile line classes incl. non-ASCII, "
             "leading '#[]:..', leading spaces, trailing '#]', empty) are attached to every documentable kind at "
             "depth 0-3 with random block indentation (spaces/tabs), read from UTF-8 files by the real Documenter; "
-            "oracle = unique-id ledger (each generated line exactly once, verbatim, in order, under its own entry). "
+            "a third of the cases under non-empty parameter strip patterns with doc lines that name the raw parameters; oracle = unique-id ledger (each generated line exactly once, verbatim, in order, under its own entry). "
             "Distinct = module shape + line-class sequence; non-trivial = at least 3 doc lines")
     ASSUMPTIONS = ["canonical doccomment form only (as the quantifier states)", "no ']]' inside doc text",
                    "trailing-space policy on whitespace-only lines is not asserted",
